@@ -7,6 +7,8 @@ import (
 	"encoding/binary"
 	"errors"
 	"fmt"
+	"runtime/debug"
+	"strings"
 	"time"
 
 	abci "github.com/cometbft/cometbft/abci/types"
@@ -260,7 +262,7 @@ func (c *Chain) Step(o StepOpts) (*Block, error) {
 		n.EL.SetNext(o.Reqs)
 		n.EL.SetPhase("finalize")
 		from := n.EL.NCalls()
-		fb, err := n.App.FinalizeBlock(req)
+		fb, err := n.Finalize(req)
 		if err != nil {
 			return blk, &ErrCrash{Height: h, Node: i, Err: err}
 		}
@@ -379,3 +381,74 @@ func (c *Chain) MustStep(o StepOpts) (*Block, error) {
 func (c *Chain) ConsAddrOf(i int) string { return string(c.W.Vals[i].Cons) }
 
 var _ = sdk.AccAddress{}
+
+// Apply makes the chain execute a block that was produced elsewhere (a twin or a
+// recorded history), optionally with a different transaction list. The block
+// hash, time, proposer, commit info and evidence are taken from the original.
+func (c *Chain) Apply(orig *Block, txs [][]byte) (*Block, error) {
+	req := *orig.Req
+	req.Txs = txs
+	blk := &Block{Height: req.Height, Time: req.Time, Proposer: req.ProposerAddress, Req: &req, Reqs: orig.Reqs}
+	blk.Payload = DecodeBlockTx(c.W, txs)
+	var first *abci.ResponseFinalizeBlock
+	for i, n := range c.Nodes {
+		if n == nil {
+			continue
+		}
+		n.EL.SetPhase("finalize")
+		from := n.EL.NCalls()
+		fb, err := n.Finalize(&req)
+		if err != nil {
+			return blk, &ErrCrash{Height: req.Height, Node: i, Err: err}
+		}
+		if first == nil {
+			first = fb
+			blk.ELCalls = n.EL.Calls(from)
+		}
+		if _, err := n.App.Commit(); err != nil {
+			return blk, err
+		}
+		n.EL.SetPhase("idle")
+	}
+	blk.Resp = first
+	blk.BlockOK = len(first.TxResults) > 0 && first.TxResults[0].Code == 0
+	c.Advance(blk)
+	return blk, nil
+}
+
+// DiffStores lists the stores whose commit hashes differ between two nodes.
+func DiffStores(a, b *Node, names ...string) []string {
+	ha, hb := a.StoreHashes(), b.StoreHashes()
+	var d []string
+	for _, n := range names {
+		if ha[n] != hb[n] {
+			d = append(d, n)
+		}
+	}
+	return d
+}
+
+// Finalize calls FinalizeBlock and converts a panic (which would kill a real node) into an error.
+func (n *Node) Finalize(req *abci.RequestFinalizeBlock) (resp *abci.ResponseFinalizeBlock, err error) {
+	defer func() {
+		if r := recover(); r != nil {
+			err = fmt.Errorf("panic in FinalizeBlock: %v\n%s", r, shortStack())
+		}
+	}()
+	return n.App.FinalizeBlock(req)
+}
+
+func shortStack() string {
+	st := string(debug.Stack())
+	lines := strings.Split(st, "\n")
+	var keep []string
+	for _, l := range lines {
+		if strings.Contains(l, "goatnetwork/goat") || strings.Contains(l, "cosmos-sdk/baseapp") {
+			keep = append(keep, strings.TrimSpace(l))
+		}
+		if len(keep) >= 16 {
+			break
+		}
+	}
+	return strings.Join(keep, "\n")
+}
